@@ -404,7 +404,7 @@ def run(ctx):
             why = oracle(c, io)
             if why:
                 ctx.violation('%s: %s' % (what, why), {'stream': stream, 'case': c, 'observed': io, 'model': mo})
-    if (not ctx.lean.ok or ctx.disagreements) and not ctx.violations and not ctx.known_hits:
+    if (not ctx.lean.ok or ctx.disagreements) and not ctx.violations:
         common.broken_report(ctx, 'exact rational derivatives found no failing input among %d cases' % ctx.evaluations)
     return ctx.finish(
         level='proof',
